@@ -231,3 +231,51 @@ M('C07', 'silent-volume-else-restructure', S,
   "    elif volume == False or volume is None:\n        v = None\n    else:\n        if volume == True:", 'silent')
 M('C07', 'silent-result-super', S, "        self.final_delay_queue = queue\n        self.timepoints = timepoints\n        self.simulation_result = result\n",
   "        super().__init__(timepoints, result)\n        self.final_delay_queue = queue\n", 'silent')
+
+# ------------------------------------------------------------------ C20
+M('C20', 'round-dropped', S, "int( (time - self.next_queue_time) / self.dt + 0.5 )", "int( (time - self.next_queue_time) / self.dt )", 'fire', 'R20.1')
+M('C20', 'upper-clamp-dropped', S, "        elif index >= int(self.num_cols):\n            index = self.num_cols-1\n", "", 'fire', 'R20.1')
+M('C20', 'lower-clamp-dropped', S, "        if index < 0:\n            index = 0\n        elif index >= int(self.num_cols):", "        if index >= int(self.num_cols):", 'fire', 'R20.1')
+M('C20', 'mod-dropped', S, "index = (index + self.start_index) % self.num_cols", "index = (index + self.start_index)", 'fire', 'R20.1')
+M('C20', 'store-overwrites', S, "self.queue[rxn_id,index] += amount", "self.queue[rxn_id,index] = amount", 'fire', 'R20.1')
+M('C20', 'clamp-off-by-one', S, "            index = self.num_cols-1\n", "            index = self.num_cols-2\n", 'fire', 'R20.1')
+M('C20', 'advance-before-clear', S,
+  "        cdef unsigned i\n        for i in range(self.num_reactions):\n            self.queue[i,self.start_index] = 0\n        # advanced the start index by 1 cycling around the end.\n        self.start_index = (self.start_index + 1) % self.num_cols",
+  "        cdef unsigned i\n        self.start_index = (self.start_index + 1) % self.num_cols\n        for i in range(self.num_reactions):\n            self.queue[i,self.start_index] = 0", 'fire', 'advance_time')
+M('C20', 'copy-start-index-lost', S,
+  "        a.start_index = self.start_index\n        a.queue = self.queue.copy()", "        a.queue = self.queue.copy()", 'fire', 'R20.4-copies/copy')
+M('C20', 'copy-aliases-queue', S, "        a.queue = self.queue.copy()", "        a.queue = self.queue", 'fire', 'R20.4-copies/copy')
+M('C20', 'partition-short-loop', S, "        for time_index in range(time_points):\n            for reaction_index in range(num_reactions):\n                q1.queue",
+  "        for time_index in range(time_points-1):\n            for reaction_index in range(num_reactions):\n                q1.queue", 'fire', 'binomial_partition')
+M('C20', 'partition-remainder', S, "q2.queue[reaction_index,time_index] = self.queue[reaction_index,time_index] - q1.queue[reaction_index,time_index]",
+  "q2.queue[reaction_index,time_index] = self.queue[reaction_index,time_index]", 'fire', 'binomial_partition')
+M('C20', 'set-time-no-dt', S, "        self.next_queue_time = t + self.dt", "        self.next_queue_time = t", 'fire', 'R20.3')
+M('C20', 'silent-round-rewrite', S, "int( (time - self.next_queue_time) / self.dt + 0.5 )", "int( 0.5 + (time - self.next_queue_time) * (1.0 / self.dt) )", 'silent')
+M('C20', 'silent-copy-order', S, "        a.dt = self.dt\n        a.start_index = self.start_index\n        a.queue = self.queue.copy()",
+  "        a.start_index = self.start_index\n        a.queue = self.queue.copy()\n        a.dt = self.dt", 'silent')
+
+# ------------------------------------------------------------------ C10
+M('C10', 'enqueue-and-apply', S,
+  "                if computed_delay > 0.0:\n                    q.add_reaction(current_time+computed_delay,reaction_choice,1.0)\n                else:\n                    for species_index in range(num_species):\n                        c_current_state[species_index] += c_delay_stoich[species_index,reaction_choice]\n\n        # Now need to re-align",
+  "                if computed_delay > 0.0:\n                    q.add_reaction(current_time+computed_delay,reaction_choice,1.0)\n                for species_index in range(num_species):\n                    c_current_state[species_index] += c_delay_stoich[species_index,reaction_choice]\n\n        # Now need to re-align",
+  'fire', 'R10.1-one-disposition/DelaySSASimulator')
+M('C10', 'delay-not-added-to-time', S,
+  "                    q.add_reaction(current_time+computed_delay,reaction_choice,1.0)\n                else:\n                    for species_index in range(num_species):\n                        c_current_state[species_index] += c_delay_stoich[species_index,reaction_choice]\n\n            # 2.",
+  "                    q.add_reaction(computed_delay,reaction_choice,1.0)\n                else:\n                    for species_index in range(num_species):\n                        c_current_state[species_index] += c_delay_stoich[species_index,reaction_choice]\n\n            # 2.",
+  'fire', 'R10.1-one-disposition/DelayVolumeSSASimulator')
+M('C10', 'advance-before-read', S,
+  "                q.get_next_reactions(<double*> (c_q_rxn_amt.data))\n", "                q.advance_time()\n                q.get_next_reactions(<double*> (c_q_rxn_amt.data))\n", 'fire', 'R10.2-delivery/DelaySSASimulator')
+M('C10', 'gamma-args-swapped', T, "return cyrandom.gamma_rv(params[self.k_index],params[self.theta_index])", "return cyrandom.gamma_rv(params[self.theta_index],params[self.k_index])", 'fire', 'R10.4-delay-class/GammaDelay')
+M('C10', 'gaussian-binding-swapped', T, "            if key == 'mean':\n                self.mean_index = parameter_indices[value]\n            elif key == 'std':\n                self.std_index = parameter_indices[value]",
+  "            if key == 'mean':\n                self.std_index = parameter_indices[value]\n            elif key == 'std':\n                self.mean_index = parameter_indices[value]", 'fire', 'R10.4-delay-class/GaussianDelay')
+M('C10', 'boxmuller-no-2', R, "    R = sqrt(-2*log(u))", "    R = sqrt(-log(u))", 'fire', 'normal_rv')
+M('C10', 'gamma-d', R, "    d = k - 1.0/3", "    d = k - 1.0/2", 'fire', 'gamma_rv')
+M('C10', 'gamma-accept', R, "log(UNI) < 0.5*x**2+d-d*v+d*log(v)", "log(UNI) < 0.5*x**2+d-d*v+log(v)", 'fire', 'gamma_rv')
+M('C10', 'gamma-no-positivity', R, "        if v > 0 and log(UNI) <", "        if log(UNI) <", 'fire', 'gamma_rv')
+M('C10', 'queue-length', S, "q = ArrayDelayQueue.setup_queue(Interface.py_get_num_reactions(),len(timepoints),timepoints[1]-timepoints[0])",
+  "q = ArrayDelayQueue.setup_queue(Interface.py_get_num_reactions(),len(timepoints),timepoints[1])", 'fire', 'R10.5')
+M('C10', 'nodelay-drops-delayed', S, "        cdef np.ndarray[np.double_t,ndim=2] c_stoich = sim.get_update_array() + sim.get_delay_update_array()\n\n        cdef unsigned num_species = c_stoich.shape[0]\n        cdef unsigned num_reactions = c_stoich.shape[1]\n        cdef unsigned num_timepoints = len(timepoints)\n\n        cdef double current_time",
+  "        cdef np.ndarray[np.double_t,ndim=2] c_stoich = sim.get_update_array()\n\n        cdef unsigned num_species = c_stoich.shape[0]\n        cdef unsigned num_reactions = c_stoich.shape[1]\n        cdef unsigned num_timepoints = len(timepoints)\n\n        cdef double current_time",
+  'fire', 'R10.3-no-delay-sum/VolumeSSASimulator')
+M('C10', 'silent-boxmuller-rewrite', R, "    return R*cos(theta)*std + mean", "    return mean + std*(R*cos(theta))", 'silent')
+M('C10', 'silent-gamma-rewrite', R, "            return d*v*theta", "            return theta*d*v", 'silent')
